@@ -418,6 +418,9 @@ def run(prop, tier, extra=None):
         # interpolation along a dimension with an N-D coordinate variable
         import c17
         c17.run_nd_structure(out, rnd, tier)
+        # IOAPI constructors / readers / wrappers: well-formed, TSTEP unlimited
+        import ioapi_driver
+        ioapi_driver.run_ioapi_wellformed(out, tier)
     if prop == 'C02':
         # the IOAPI wrapper's data path: TFLAG under selections of the time axis
         import ioapi_driver
